@@ -143,6 +143,17 @@ theorem part_assembly (tag : Str) (attrs : List (Str × Str)) (h : RNode) (t : R
     printOpenClose tag attrs (.cons h t) = printNode (.elem tag attrs (.cons h t)) := by
   simp [printOpenClose, printNode]
 
+/-- **C02 for the four package parts**: a part assembled from a wrapper element and at least one child parses back to
+    the canonical form of the wrapper with exactly those children (content.xml always has automatic-styles and body,
+    styles.xml has styles and automatic-styles, meta.xml and settings.xml have their single section). -/
+theorem parts_print_parse (tbl : NsTable) (q : QName) (attrs : List (QName × Str)) (h : Node) (t : Forest)
+    (ht : TableOK tbl) (hcl : NsClean tbl) (hu : TreeOK tbl (.elem q attrs (.cons h t))) :
+    parseDoc (renderPart tbl q attrs (.cons h t)) = some (canonT (.elem q attrs (.cons h t))) := by
+  have : renderPart tbl q attrs (.cons h t) = render tbl (.elem q attrs (.cons h t)) := by
+    simp [renderPart, render, rawRoot, rawOfF, printOpenClose, printNode]
+  rw [this]
+  exact print_parse tbl q attrs (.cons h t) ht hcl hu
+
 /-- non-vacuity: the hypotheses of `print_parse` are satisfiable — table `u ↦ p`, root `p:a` with an unqualified
     attribute holding every special character, a text node and a CDATA node containing `]]>` and CR -/
 example : TableOK [([117], [112])] ∧ NsClean [([117], [112])] ∧
